@@ -173,15 +173,20 @@ Fixpoint lex_cmp (a b : bytes) : comparison :=
   | x :: a', y :: b' => match N.compare x y with Eq => lex_cmp a' b' | c => c end
   end.
 
-(* an atom read as an unsigned integer of at most [size] bytes (leading zero bytes allowed) *)
+(* an atom read as an unsigned integer of at most [size] bytes: not negative (first byte below
+   0x80), leading zero bytes do not count *)
+Fixpoint drop_zeros (b : bytes) : bytes :=
+  match b with 0 :: r => drop_zeros r | _ => b end.
+
 Definition small_uint (size : nat) (t : sexp) : option N :=
   match t with
   | Cons _ _ => None
-  | Atom b =>
-      let v := int_of_bytes b in
-      if (v <? 0)%Z then None
-      else if (Z.of_N (pow256 size) <=? v)%Z then None
-      else Some (Z.to_N v)
+  | Atom [] => Some 0
+  | Atom ((x :: _) as b) =>
+      if 128 <=? x then None
+      else
+        let m := drop_zeros b in
+        if (length m <=? size)%nat then Some (uint_of_bytes m) else None
   end.
 
 (* ---------------------------------------------------------------------------------------- *)
@@ -213,6 +218,12 @@ Definition ref_path (path : bytes) (env : sexp) : res (N * sexp) :=
 Section Ops.
   Variable H : bytes -> bytes.          (* SHA-256 *)
   Variable ad : ref_adapters.
+  (* the domain of the comparison: [dom opcode arguments = false] marks an operator application
+     outside it, on which the reference has no opinion ([Unsupported], like an operator outside
+     the classic set). The executable reference runs with the full domain (fun _ _ => true);
+     the theorems of C01 hold for every domain that excludes atoms the allocator cannot hold
+     (2^31 bytes and more) and the wrap class of finding F6 (Proofs/RefClvmEval.v: dom_sound). *)
+  Variable dom : bytes -> list sexp -> bool.
 
   (* + : the sum; - : the first minus the others (no argument: 0) *)
   Definition ref_add (args : list sexp) : res (N * sexp) :=
@@ -503,6 +514,11 @@ Section Ops.
       (24, ref_logop Z.land (-1)%Z); (25, ref_logop Z.lor 0%Z); (26, ref_logop Z.lxor 0%Z);
       (27, ref_lognot); (32, ref_not); (33, ref_any); (34, ref_all) ].
 
+  Definition classic_codes : list N :=
+    [3; 4; 5; 6; 7; 8; 9; 10; 11; 12; 13; 14; 16; 17; 18; 19; 20; 21; 22; 23; 24; 25; 26; 27; 32; 33; 34].
+  Definition classic_code (opc : bytes) : bool :=
+    match opc with [b] => existsb (N.eqb b) classic_codes | _ => false end.
+
   Fixpoint lookup {A} (k : N) (t : list (N * A)) : option A :=
     match t with
     | [] => None
@@ -510,7 +526,7 @@ Section Ops.
     end.
 
   Definition ref_op (kec : bool) (opc : bytes) (args : list sexp) (ending_atom : bytes) : res (N * sexp) :=
-    if non_classic kec opc then Err Unsupported
+    if non_classic kec opc || negb (dom opc args) then Err Unsupported
     else
       let known (op : N) (f : list sexp -> res (N * sexp)) :=
         if negb (ad_literal_operands_any_terminator ad) && strict_reader op
@@ -538,87 +554,98 @@ Section Ops.
   Definition tighter (lim : option N) (m : N) : option N :=
     match lim with None => Some m | Some l => Some (N.min l m) end.
 
-  (* [fuel] bounds the nesting depth of evaluations (not their number) *)
-  Fixpoint ref_eval (fuel : nat) (lim : option N) (kec : bool) (p e : sexp) {struct fuel}
-    : res (N * sexp) :=
-    match fuel with
-    | O => Err OutOfFuel
-    | S n =>
-        (* apply operator [opc] to the operand list [args] (a tree: evaluated operands, or the
-           literal list of the ((X) . args) form) *)
-        let apply_operator (opc : bytes) (args : sexp) : res (N * sexp) :=
-          if bytes_eqb opc [2] then
-            match items args with
-            | [prog; env] =>
-                do '(c, v) <- ref_eval n lim kec prog env;
-                Ok (rc_apply + c, v)
-            | _ => fail
-            end
-          else if bytes_eqb opc [36] then
-            match items args with
-            | [] => fail
-            | declared :: more =>
-                if ad_softfork_guard ad then
-                  match small_uint 8 declared with
-                  | None => fail
-                  | Some d =>
-                      if d =? 0 then Err CostExceeded
-                      else
-                        match more with
-                        | [ext; prog; env] =>
-                            match small_uint 4 ext with
-                            | Some x =>
-                                if (x =? 0) || (x =? 1) then
-                                  match ref_eval n (tighter lim d) (x =? 1) prog env with
-                                  | Ok (c, _) =>
-                                      if c + rc_guard =? d then Ok (d, nil_s)
-                                      else Err SoftforkCostMismatch
-                                  | Err err => Err err
-                                  end
-                                else Ok (d, nil_s)
-                            | None => Ok (d, nil_s)
-                            end
-                        | _ => Ok (d, nil_s)
-                        end
-                  end
+  (* one level of evaluation over the evaluator [rec] for the sub-evaluations *)
+  Section Rec.
+    Variable rec : option N -> bool -> sexp -> sexp -> res (N * sexp).
+
+    (* the softfork operator on its operand list *)
+    Definition ref_softfork (lim : option N) (args : sexp) : res (N * sexp) :=
+      match items args with
+      | [] => fail
+      | declared :: more =>
+          if ad_softfork_guard ad then
+            match small_uint 8 declared with
+            | None => fail
+            | Some d =>
+                if d =? 0 then Err CostExceeded
                 else
-                  match declared with
-                  | Atom b =>
-                      let d := int_of_bytes b in
-                      if (d <? 1)%Z then fail else Ok (Z.to_N d, nil_s)
-                  | Cons _ _ => fail
+                  match more with
+                  | [ext; prog; env] =>
+                      match small_uint 4 ext with
+                      | Some x =>
+                          if (x =? 0) || (x =? 1) then
+                            match rec (tighter lim d) (x =? 1) prog env with
+                            | Ok (c, _) =>
+                                if c + rc_guard =? d then Ok (d, nil_s)
+                                else Err SoftforkCostMismatch
+                            | Err err => Err err
+                            end
+                          else Ok (d, nil_s)
+                      | None => Ok (d, nil_s)
+                      end
+                  | _ => Ok (d, nil_s)
                   end
             end
-          else ref_op kec opc (items args) (ending args) in
-        cap lim
-          match p with
-          | Atom path => ref_path path e
-          | Cons (Atom opc) operands =>
-              if bytes_eqb opc [1] then Ok (rc_quote, operands)
-              else
-                (* operands are evaluated last to first and collected into a list *)
-                let fix eval_operands (l : sexp) : res (N * list sexp) :=
-                  match l with
-                  | Atom [] => Ok (0, [])
-                  | Atom _ => if ad_nil_terminator ad then Err InvalidNilTerminator else Ok (0, [])
-                  | Cons a r =>
-                      do '(cr, vr) <- eval_operands r;
-                      do '(ca, va) <- ref_eval n lim kec a e;
-                      Ok (ca + cr, va :: vr)
-                  end in
-                do '(ca, vals) <- eval_operands operands;
-                do '(co, v) <- apply_operator opc (list_tree vals);
-                Ok (rc_op + ca + co, v)
-          | Cons (Cons x t) operands =>
-              match x, t with
-              | Atom opc, Atom tb =>
-                  if ad_head_any_terminator ad || (match tb with [] => true | _ => false end) then
-                    do '(c, v) <- apply_operator opc operands;
-                    Ok (rc_apply + c, v)
-                  else fail
-              | _, _ => fail
-              end
-          end
+          else
+            match declared with
+            | Atom b =>
+                let d := int_of_bytes b in
+                if (d <? 1)%Z then fail else Ok (Z.to_N d, nil_s)
+            | Cons _ _ => fail
+            end
+      end.
+
+    (* apply operator [opc] to the operand list [args] (a tree: the evaluated operands, or the
+       literal list of the ((X) . args) form) *)
+    Definition ref_apply (lim : option N) (kec : bool) (opc : bytes) (args : sexp) : res (N * sexp) :=
+      if bytes_eqb opc [2] then
+        match items args with
+        | [prog; env] =>
+            do '(c, v) <- rec lim kec prog env;
+            Ok (rc_apply + c, v)
+        | _ => fail
+        end
+      else if bytes_eqb opc [36] then ref_softfork lim args
+      else ref_op kec opc (items args) (ending args).
+
+    (* operands are evaluated last to first and collected into a list *)
+    Fixpoint ref_operands (lim : option N) (kec : bool) (l e : sexp) : res (N * list sexp) :=
+      match l with
+      | Atom [] => Ok (0, [])
+      | Atom _ => if ad_nil_terminator ad then Err InvalidNilTerminator else Ok (0, [])
+      | Cons a r =>
+          do '(cr, vr) <- ref_operands lim kec r e;
+          do '(ca, va) <- rec lim kec a e;
+          Ok (ca + cr, va :: vr)
+      end.
+
+    Definition ref_body (lim : option N) (kec : bool) (p e : sexp) : res (N * sexp) :=
+      cap lim
+        match p with
+        | Atom path => ref_path path e
+        | Cons (Atom opc) operands =>
+            if bytes_eqb opc [1] then Ok (rc_quote, operands)
+            else
+              do '(ca, vals) <- ref_operands lim kec operands e;
+              do '(co, v) <- ref_apply lim kec opc (list_tree vals);
+              Ok (rc_op + ca + co, v)
+        | Cons (Cons x t) operands =>
+            match x, t with
+            | Atom opc, Atom tb =>
+                if ad_head_any_terminator ad || (match tb with [] => true | _ => false end) then
+                  do '(c, v) <- ref_apply lim kec opc operands;
+                  Ok (rc_apply + c, v)
+                else fail
+            | _, _ => fail
+            end
+        end.
+  End Rec.
+
+  (* [fuel] bounds the nesting depth of evaluations (not their number) *)
+  Fixpoint ref_eval (fuel : nat) : option N -> bool -> sexp -> sexp -> res (N * sexp) :=
+    match fuel with
+    | O => fun _ _ _ _ => Err OutOfFuel
+    | S n => ref_body (ref_eval n)
     end.
 
   Definition ref_budget (max_cost : N) : N :=
